@@ -124,9 +124,13 @@ func ruleErrDominatesUse(c *Ctx) {
 			type state struct {
 				valid map[types.Object]bool
 				cur   map[types.Object]*site // error variable → the site whose error it holds (nil: unknown)
+				taint map[types.Object]bool  // MAY: the variable may hold the result of a call whose error was not found nil
 			}
 			clone := func(s *state) *state {
-				n := &state{valid: map[types.Object]bool{}, cur: map[types.Object]*site{}}
+				n := &state{valid: map[types.Object]bool{}, cur: map[types.Object]*site{}, taint: map[types.Object]bool{}}
+				for k, v := range s.taint {
+					n.taint[k] = v
+				}
 				for k, v := range s.valid {
 					n.valid[k] = v
 				}
@@ -169,13 +173,15 @@ func ruleErrDominatesUse(c *Ctx) {
 				for _, o := range assignsObj(n) {
 					delete(st.valid, o)
 					delete(st.cur, o)
+					delete(st.taint, o)
 				}
 				if s, ok := siteOf[n]; ok {
 					st.cur[s.e] = s
+					st.taint[s.x] = true
 				}
 			}
 			in := make([]*state, len(g.Blocks))
-			in[0] = &state{valid: map[types.Object]bool{}, cur: map[types.Object]*site{}}
+			in[0] = &state{valid: map[types.Object]bool{}, cur: map[types.Object]*site{}, taint: map[types.Object]bool{}}
 			out := func(b *cfg.Block) *state {
 				st := clone(in[b.Index])
 				for _, n := range b.Nodes {
@@ -198,6 +204,7 @@ func ruleErrDominatesUse(c *Ctx) {
 				isNilEdge := (i == 0) != nonNil
 				if s := st.cur[eo]; s != nil && isNilEdge {
 					st.valid[s.x] = true
+					delete(st.taint, s.x)
 				}
 			}
 			for changed, it := true, 0; changed && it < 6*len(g.Blocks)+16; it++ {
@@ -223,8 +230,18 @@ func ruleErrDominatesUse(c *Ctx) {
 							}
 						}
 						for k, v := range old.cur {
-							if st.cur[k] != v {
+							if o2 := st.cur[k]; o2 != v {
+								// two sites that assign the same result variable are interchangeable here
+								if o2 != nil && o2.x == v.x {
+									continue
+								}
 								delete(old.cur, k)
+								changed = true
+							}
+						}
+						for k := range st.taint {
+							if !old.taint[k] {
+								old.taint[k] = true
 								changed = true
 							}
 						}
@@ -275,6 +292,7 @@ func ruleErrDominatesUse(c *Ctx) {
 							return false
 						}
 						var base ast.Expr
+						plain := false
 						switch y := x.(type) {
 						case *ast.SelectorExpr:
 							base = y.X
@@ -282,6 +300,18 @@ func ruleErrDominatesUse(c *Ctx) {
 							base = y.X
 						case *ast.IndexExpr:
 							base = y.X
+						case *ast.CallExpr:
+							// … or collected with append
+							if exprString(y.Fun) == "append" && len(y.Args) >= 2 {
+								for _, a := range y.Args[1:] {
+									if aid, isId := ast.Unparen(a).(*ast.Ident); isId && len(xOf[info.Uses[aid]]) > 0 {
+										base, plain = a, true
+									}
+								}
+							}
+							if base == nil {
+								return true
+							}
 						default:
 							return true
 						}
@@ -320,7 +350,12 @@ func ruleErrDominatesUse(c *Ctx) {
 							return true
 						}
 						used[s]++
-						if !st.valid[o] && !shortCircuit(n, x, s.e) {
+						unsafe := !st.valid[o]
+						if plain {
+							// handing the value on is wrong only if it may be the result of a failed call
+							unsafe = st.taint[o]
+						}
+						if unsafe && !shortCircuit(n, x, s.e) {
 							if _, dup := bad[s]; !dup {
 								bad[s] = x.Pos()
 							}
